@@ -191,6 +191,39 @@ func catalogue(sc *issuer.Scenario, rng *rand.Rand) []issuer.Mut {
 			st["statusIssuer"] = map[string]any{"id": "https://backup.example/x", "type": "NoSuchStatusType", "revocationNonce": sc.P.AuthNonce + 9}
 			p.IssuerData.CredentialStatus = st
 		}},
+		// ---- decoding of the status object (model: Top78.decode_cs)
+		{"status-statusissuer-not-an-object", "reject", func(p *issuer.ProofJ, e *issuer.Env) {
+			st := issuer.StatusEntry("https://status.example/x", sc.P.AuthNonce)
+			st["statusIssuer"] = "https://backup.example/x"
+			p.IssuerData.CredentialStatus = st
+		}},
+		{"status-statusissuer-nested-malformed", "reject", func(p *issuer.ProofJ, e *issuer.Env) {
+			st := issuer.StatusEntry("https://status.example/x", sc.P.AuthNonce)
+			st["statusIssuer"] = map[string]any{"type": "T", "statusIssuer": map[string]any{"revocationNonce": "7"}}
+			p.IssuerData.CredentialStatus = st
+		}},
+		{"status-statusissuer-null-and-unknown-members", "accept", func(p *issuer.ProofJ, e *issuer.Env) {
+			st := issuer.StatusEntry("https://status.example/x", sc.P.AuthNonce)
+			st["statusIssuer"] = nil
+			st["x-extra"] = []any{1, true}
+			st["id"] = nil
+			p.IssuerData.CredentialStatus = st
+		}},
+		{"status-id-is-a-number", "reject", func(p *issuer.ProofJ, e *issuer.Env) {
+			st := issuer.StatusEntry("https://status.example/x", sc.P.AuthNonce)
+			st["id"] = 5
+			p.IssuerData.CredentialStatus = st
+		}},
+		{"status-type-null", "reject", func(p *issuer.ProofJ, e *issuer.Env) {
+			st := issuer.StatusEntry("https://status.example/x", sc.P.AuthNonce)
+			st["type"] = nil
+			p.IssuerData.CredentialStatus = st
+		}},
+		{"status-nonce-null", map[bool]string{true: "accept", false: "reject"}[sc.P.AuthNonce == 0], func(p *issuer.ProofJ, e *issuer.Env) {
+			st := issuer.StatusEntry("https://status.example/x", sc.P.AuthNonce)
+			st["revocationNonce"] = nil // decodes as 0
+			p.IssuerData.CredentialStatus = st
+		}},
 		{"status-resolver-error", "reject", func(p *issuer.ProofJ, e *issuer.Env) { e.Reg[0].Answer = nil }},
 		{"status-registry-empty", "reject", func(p *issuer.ProofJ, e *issuer.Env) { e.Reg = nil }},
 		// ---- status answer (C09's clauses, one fault each)
